@@ -117,6 +117,61 @@ def lstep (flagCheck : Bool) (s : LS) : LChoice → LS
 
 def lrun (flagCheck : Bool) (s : LS) (cs : List LChoice) : LS := cs.foldl (lstep flagCheck) s
 
+/-! ### (2b) starting a request: the request thread (`_request_cb`) against the result watcher (`_result_cb`)
+  The request thread creates the dispatch process, starts it and registers its pid in `_pool`; the
+  watcher removes the pid under the same lock (`_plock`) before it releases the resources and answers
+  the master.  Once started, the process may deliver its result at any time.
+  `startInLock` says whether `proc.start()` sits inside the `with self._plock:` block together with
+  the registration (read from worker_default.py by the translator). -/
+
+inductive RQ where
+  | idle | locked | started | registered | done
+deriving DecidableEq, Repr
+
+structure SS where
+  rq       : RQ   := .idle
+  plock    : Bool := false        -- `_plock` held by the request thread
+  started  : Bool := false        -- the dispatch process runs
+  finished : Bool := false        -- ... and has come to its end
+  queued   : Bool := false        -- its result is on the result queue
+  inPool   : Bool := false
+  held     : Bool := true         -- resources of the request (allocated before the start)
+  answered : Bool := false
+  watcher  : Bool := true
+deriving DecidableEq, Repr
+
+inductive SChoice where
+  | req        -- the request thread takes its next step
+  | proc       -- the dispatch process (with its rank process) runs to its end and queues the result
+  | watcher    -- the result watcher handles the queued result (blocked while `_plock` is held)
+deriving DecidableEq, Repr
+
+def sstep (startInLock : Bool) (s : SS) : SChoice → SS
+  | .req =>
+    if startInLock then
+      match s.rq with
+      | .idle       => { s with rq := .locked, plock := true }
+      | .locked     => { s with rq := .started, started := true }
+      | .started    => { s with rq := .registered, inPool := true }
+      | .registered => { s with rq := .done, plock := false }
+      | .done       => s
+    else
+      match s.rq with
+      | .idle       => { s with rq := .started, started := true }
+      | .started    => { s with rq := .locked, plock := true }
+      | .locked     => { s with rq := .registered, inPool := true }
+      | .registered => { s with rq := .done, plock := false }
+      | .done       => s
+  | .proc =>
+    if s.started ∧ ¬ s.finished then { s with finished := true, queued := true } else s
+  | .watcher =>
+    if s.watcher ∧ s.queued ∧ ¬ s.plock then
+      (if s.inPool then { s with queued := false, inPool := false, held := false, answered := true }
+       else { s with queued := false, watcher := false })              -- `del self._pool[pid]`: KeyError
+    else s
+
+def srun (startInLock : Bool) (s : SS) (cs : List SChoice) : SS := cs.foldl (sstep startInLock) s
+
 /-! ### (3) master and scheduler: routing and target state -/
 
 inductive Mode where
